@@ -147,6 +147,7 @@ pub fn worker_loop(spec: &WorkerSpec, order: &[usize], mut run_case: impl FnMut(
     }
     let _ = std::fs::write(&spec.cur_file, "done");
     out.emit_final(more, last_pos);
+    remove_own_scratch();
     std::process::exit(0)
 }
 
@@ -173,6 +174,7 @@ pub fn parent_run(
     death_key: &str,
     describe: impl Fn(usize) -> Value + Sync,
 ) -> Merged {
+    sweep_dead_scratch();
     let exe = std::env::current_exe().unwrap_or_else(|e| machinery_fail(&format!("current_exe: {e}")));
     let j = crate::jobs().min(n_cases.max(1));
     let scratch = scratch_base().join(format!("verif-workers-{}", std::process::id()));
@@ -281,7 +283,39 @@ pub fn parent_run(
         }
     });
     let _ = std::fs::remove_dir_all(&scratch);
+    sweep_dead_scratch();
     merged.into_inner().unwrap()
+}
+
+/// Removes this process's own scratch directories (names carry the pid).
+pub fn remove_own_scratch() {
+    let me = std::process::id().to_string();
+    let Ok(rd) = std::fs::read_dir(scratch_base()) else { return };
+    for e in rd.flatten() {
+        let name = e.file_name().to_string_lossy().into_owned();
+        if name.starts_with("verif-") && !name.starts_with("verif-workers-") && name.split('-').any(|p| p == me) {
+            let _ = std::fs::remove_dir_all(e.path());
+        }
+    }
+}
+
+/// Removes every `verif-*` scratch directory under the scratch base whose owning process (the first
+/// number in its name) is no longer alive.  Workers leave through `process::exit`, so their last
+/// scratch directories are swept by the parent when a run ends (and at the start of the next one).
+pub fn sweep_dead_scratch() {
+    let Ok(rd) = std::fs::read_dir(scratch_base()) else { return };
+    for e in rd.flatten() {
+        let name = e.file_name().to_string_lossy().into_owned();
+        if !name.starts_with("verif-") {
+            continue;
+        }
+        let pid: Option<u32> = name.split('-').find_map(|p| p.parse().ok());
+        if let Some(pid) = pid {
+            if pid != std::process::id() && !std::path::Path::new(&format!("/proc/{pid}")).exists() {
+                let _ = std::fs::remove_dir_all(e.path());
+            }
+        }
+    }
 }
 
 pub fn scratch_base() -> PathBuf {
